@@ -25,6 +25,29 @@ func checkObjectName(objectName string) error {
 	return nil
 }
 
+// pruneEmptyDirs removes the directories that deleting the object at
+// objectPath left empty, from the object's directory up to (not including)
+// root. Keys are files: a directory only exists because some key lies beneath
+// it, so an empty one must not linger as a phantom common prefix or keep the
+// bucket from being deleted.
+func pruneEmptyDirs(fs afero.Fs, root, objectPath string) error {
+	for dir := path.Dir(objectPath); dir != root && dir != "." && dir != "/"; dir = path.Dir(dir) {
+		entries, err := afero.ReadDir(fs, filepath.FromSlash(dir))
+		if os.IsNotExist(err) {
+			continue
+		} else if err != nil {
+			return err
+		}
+		if len(entries) > 0 {
+			return nil
+		}
+		if err := fs.Remove(filepath.FromSlash(dir)); err != nil && !os.IsNotExist(err) {
+			return err
+		}
+	}
+	return nil
+}
+
 type readerWithCloser struct {
 	io.Reader
 	closer func() error
